@@ -6,9 +6,11 @@ package c11
 import (
 	"bytes"
 	"fmt"
+	"io"
 	"sort"
 	"strings"
 	"testing"
+	"testing/iotest"
 
 	"github.com/ipfs/go-cid"
 	"github.com/ipni/go-libipni/metadata"
@@ -190,6 +192,115 @@ func gsRoundTrip(pc cid.Cid, verified, fast bool) string {
 		return fmt.Sprintf("round trip of piece CID %s (verified %v, fast %v) returns piece CID %s (verified %v, fast %v)", pc, verified, fast, g.PieceCID, g.VerifiedDeal, g.FastRetrieval)
 	}
 	return ""
+}
+
+// chunkReader hands out at most n bytes per Read.
+type chunkReader struct {
+	b []byte
+	n int
+}
+
+func (c *chunkReader) Read(p []byte) (int, error) {
+	if len(c.b) == 0 {
+		return 0, io.EOF
+	}
+	k := min(c.n, len(p), len(c.b))
+	copy(p, c.b[:k])
+	c.b = c.b[k:]
+	return k, nil
+}
+
+// lastWithEOF delivers what is asked for and, together with the last byte, the
+// end-of-data error (the io.Reader contract allows both ways of ending).
+type lastWithEOF struct{ b []byte }
+
+func (l *lastWithEOF) Read(p []byte) (int, error) {
+	if len(l.b) == 0 {
+		return 0, io.EOF
+	}
+	n := copy(p, l.b)
+	l.b = l.b[n:]
+	if len(l.b) == 0 {
+		return n, io.EOF
+	}
+	return n, nil
+}
+
+// checkReadFrom: the protocols' own decoders (ReadFrom; what a caller uses to
+// decode protocol by protocol from a stream) for every protocol value of an
+// alphabet, alone and followed by another protocol's bytes, through readers
+// that deliver everything at once, byte by byte, in halves, in chunks of 7,
+// and the last data together with the end-of-data error. A failure is an
+// answer ("an error or metadata ..."); where ReadFrom succeeds, the number of
+// bytes it reports as consumed is the length of the value's own encoding and
+// that encoding is what was read.
+func checkReadFrom(r *vp.Recorder) {
+	readers := []struct {
+		name string
+		mk   func(b []byte) io.Reader
+	}{
+		{"bytes.Reader", func(b []byte) io.Reader { return bytes.NewReader(b) }},
+		{"bytes.Buffer", func(b []byte) io.Reader { return bytes.NewBuffer(append([]byte(nil), b...)) }},
+		{"one-byte-reads", func(b []byte) io.Reader { return iotest.OneByteReader(bytes.NewReader(b)) }},
+		{"half-reads", func(b []byte) io.Reader { return iotest.HalfReader(bytes.NewReader(b)) }},
+		{"chunks-of-7", func(b []byte) io.Reader { return &chunkReader{b: append([]byte(nil), b...), n: 7} }},
+		// (iotest.DataErrReader never returns from a Read into an empty
+		// buffer while data is left, so it is not used here)
+		{"data-with-eof", func(b []byte) io.Reader { return &lastWithEOF{b: append([]byte(nil), b...)} }},
+	}
+	values := []proto{pBitswap, pGateway, gsProto(0, false, false), gsProto(1, true, true), unknownProto(0x0930, 0), unknownProto(0x0930, 5), unknownProto(0x300000, 200)}
+	tails := [][]byte{nil, {0x80, 0x12}, {0x00}}
+	for _, p := range values {
+		enc, err := p.mk().MarshalBinary()
+		if err != nil {
+			panic(err)
+		}
+		for ti, tail := range tails {
+			data := append(append([]byte(nil), enc...), tail...)
+			for _, rd := range readers {
+				key := fmt.Sprintf("readfrom|%s|tail%d|%s", p.label, ti, rd.name)
+				if !r.Mine(key) {
+					continue
+				}
+				r.Eval(key, true)
+				fresh := map[multicodec.Code]func() interface {
+					ReadFrom(io.Reader) (int64, error)
+				}{
+					multicodec.TransportBitswap:             func() interface{ ReadFrom(io.Reader) (int64, error) } { return &metadata.Bitswap{} },
+					multicodec.TransportIpfsGatewayHttp:     func() interface{ ReadFrom(io.Reader) (int64, error) } { return &metadata.IpfsGatewayHttp{} },
+					multicodec.TransportGraphsyncFilecoinv1: func() interface{ ReadFrom(io.Reader) (int64, error) } { return &metadata.GraphsyncFilecoinV1{} },
+				}
+				var v interface {
+					ReadFrom(io.Reader) (int64, error)
+				}
+				if mk, ok := fresh[p.id]; ok {
+					v = mk()
+				} else {
+					v = &metadata.Unknown{}
+				}
+				var n int64
+				var rerr error
+				if pn, m := vp.Guard(func() { n, rerr = v.ReadFrom(rd.mk(data)) }); pn {
+					r.Violation("readfrom:panic", key, m, nil)
+					continue
+				}
+				if rerr != nil {
+					r.Outcome("readfrom-error")
+					continue
+				}
+				back, err := v.(metadata.Protocol).MarshalBinary()
+				if err != nil {
+					r.Violation("readfrom:decoded-value-not-encodable", key, err.Error(), nil)
+					continue
+				}
+				if n < 0 || n > int64(len(data)) || !bytes.Equal(back, data[:n]) {
+					r.Violation("readfrom:consumed-count-is-not-the-length-of-what-was-decoded", key, fmt.Sprintf("%s through %s: ReadFrom reports %d bytes consumed of %d (its own encoding has %d), the decoded value re-encodes to %d bytes", p.label, rd.name, n, len(data), len(enc), len(back)), nil)
+					continue
+				}
+				r.Outcome("readfrom-ok")
+			}
+		}
+	}
 }
 
 // checkPieceSequences: graphsync-filecoin values encoded one after the other,
@@ -541,7 +652,7 @@ func firstLine(s string) string {
 
 func TestCheck(t *testing.T) {
 	r := vp.New("C11", "exploration",
-		"collections: every subset of 8 distinct protocol IDs (bitswap, graphsync-filecoin, gateway, 5 unknown codes) of size 1..N in every construction order, those of size <=3 also in metadata contexts derived once and twice from the default one (WithProtocol); every variant combination (8 graphsync values, unknown payload lengths, bitswap and gateway handed over as pointer and by value) for subsets of size <=K in sorted and reversed order; collections with repeated IDs; the buffer handed to the decoder is overwritten by the caller right after the call, before the decoded metadata is compared. Decoder: for every corpus encoding every single-byte substitution, every truncation, every boundary varint written at every byte offset over 1..3 bytes, unknown-protocol headers declaring every length of the systematic set (2^k-1, 2^k, 2^k+1 for all k; the 25 values below 2^63 and below 2^64; the size limit +-12) for 6 codes x 3 tails; unknown payloads of every length 0..MaxMetadataSize; graphsync-filecoin with identity piece CIDs of 0..300 digest bytes; two-protocol out-of-order concatenations, and all byte strings of length <=2; after every rejected input the worker decodes a fixed valid collection and compares it. Non-trivial: collections of >=2 protocols; decoder inputs other than the unmodified corpus.",
+		"collections: every subset of 8 distinct protocol IDs (bitswap, graphsync-filecoin, gateway, 5 unknown codes) of size 1..N in every construction order, those of size <=3 also in metadata contexts derived once and twice from the default one (WithProtocol); every variant combination (8 graphsync values, unknown payload lengths, bitswap and gateway handed over as pointer and by value) for subsets of size <=K in sorted and reversed order; collections with repeated IDs; graphsync-filecoin encodings are compared with an encoding written down without the library; every ordered pair of 7 piece CIDs that share digest or codec x flags encoded back to back (A, B, A); the protocols' own ReadFrom through 6 kinds of reader (all at once, byte-wise, halves, chunks of 7, last data together with EOF), alone and followed by other bytes, the consumed count compared with the length of what was decoded; the buffer handed to the decoder is overwritten by the caller right after the call, before the decoded metadata is compared. Decoder: for every corpus encoding every single-byte substitution, every truncation, every boundary varint written at every byte offset over 1..3 bytes, unknown-protocol headers declaring every length of the systematic set (2^k-1, 2^k, 2^k+1 for all k; the 25 values below 2^63 and below 2^64; the size limit +-12) for 6 codes x 3 tails; unknown payloads of every length 0..MaxMetadataSize; graphsync-filecoin with identity piece CIDs of 0..300 digest bytes; two-protocol out-of-order concatenations, and all byte strings of length <=2; after every rejected input the worker decodes a fixed valid collection and compares it. Non-trivial: collections of >=2 protocols; decoder inputs other than the unmodified corpus.",
 		"unknown protocols are constructed the way the decoder builds them (payload holds code, length prefix and data)",
 		"collections with repeated IDs are only required to be ID-sorted and to round-trip as a multiset (order among equal IDs is not defined by the statement)",
 		"allocation bound used: 64 KiB + 64 x input length, measured with runtime/metrics /gc/heap/allocs:bytes (span-granular for small objects)",
@@ -686,6 +797,8 @@ func TestCheck(t *testing.T) {
 
 	// (f) graphsync-filecoin values encoded one after the other
 	checkPieceSequences(r)
+	// (g) the protocols' own stream decoders
+	checkReadFrom(r)
 
 	// decoder inputs
 	dec := &decoder{r: r, iso: &vp.Isolate{}}
